@@ -84,13 +84,14 @@ type ContractSet struct {
 	Lemmas      []*Lemma
 	Files       []string
 	OpaqueSorts map[string]bool
+	Writers     map[string]map[string][]string // package path -> key function -> functions allowed to Set/Delete keys of that family
 }
 
 func NewContractSet() *ContractSet {
-	return &ContractSet{Funcs: map[string]*FuncContract{}, Specs: map[string]*SpecFn{}, Ghosts: map[string]*GhostDecl{}, Invs: map[string]*NamedInv{}, OpaqueSorts: map[string]bool{}}
+	return &ContractSet{Funcs: map[string]*FuncContract{}, Specs: map[string]*SpecFn{}, Ghosts: map[string]*GhostDecl{}, Invs: map[string]*NamedInv{}, OpaqueSorts: map[string]bool{}, Writers: map[string]map[string][]string{}}
 }
 
-var kwRe = regexp.MustCompile(`^(spec|axiom|ghost|inv|func|extern|requires|ensures|maintains|modifies|may_panic|deterministic|nooverflow|inline|mode|bytes|loop|assert|locals|lemma|uses|unfold|counts|on_send|forwards|pure_funcvalues|readonly_funcvalues|names|trusted|pure|opaque|reveal|bounded|keyfns|keyfn|sort|replay|abstract)\b`)
+var kwRe = regexp.MustCompile(`^(spec|axiom|ghost|inv|func|extern|requires|ensures|maintains|modifies|may_panic|deterministic|nooverflow|inline|mode|bytes|loop|assert|locals|lemma|uses|unfold|counts|on_send|forwards|pure_funcvalues|readonly_funcvalues|names|trusted|pure|opaque|reveal|bounded|keyfns|keyfn|writers|sort|replay|abstract)\b`)
 
 // logical lines: (keyword, rest, line number)
 type cline struct {
@@ -334,6 +335,22 @@ func (cs *ContractSet) LoadFile(path, pkgPath string) error {
 		case "sort":
 			for _, nm := range strings.Fields(l.rest) {
 				cs.OpaqueSorts[nm] = true
+			}
+			cur = nil
+		case "writers":
+			// //@ writers <KeyFn>: F1, F2 ...   the functions of this package that may Set/Delete keys built by KeyFn
+			k := strings.Index(l.rest, ":")
+			if k < 0 {
+				return fmt.Errorf("%s:%d: writers needs `KeyFn: F1, F2`", path, l.line)
+			}
+			kf := strings.TrimSpace(l.rest[:k])
+			if cs.Writers[pkgPath] == nil {
+				cs.Writers[pkgPath] = map[string][]string{}
+			}
+			for _, f := range strings.Split(l.rest[k+1:], ",") {
+				if f = strings.TrimSpace(f); f != "" {
+					cs.Writers[pkgPath][kf] = append(cs.Writers[pkgPath][kf], f)
+				}
 			}
 			cur = nil
 		case "keyfns":
